@@ -173,6 +173,20 @@ def iv_pair(acc, mods, kind, fa, fb, z=None, native=True):
     rc = iv_components(rv)
     if rc != {k: -v for k, v in comp.items()}:
         acc.mismatch("interval", f"{kind}/reversed", case, rc, {k: -v for k, v in comp.items()})
+    # the reversed interval obtained from the interval itself (-iv), and the interval again AFTER it was negated, made
+    # absolute and added: an Interval is a value - nothing done with it may change what it reports
+    try:
+        nc = iv_components(-iv)
+        ac = iv_components(abs(rv))
+    except Exception as e:  # noqa: BLE001
+        nc = ac = f"raises {type(e).__name__}"
+    if nc != {k: -v for k, v in comp.items()}:
+        acc.mismatch("interval", f"{kind}/negated", case, nc, {k: -v for k, v in comp.items()})
+    if ac != comp:
+        acc.mismatch("interval", f"{kind}/abs-of-reversed", case, ac, comp)
+    again = (iv_components(iv), iv_components(rv))
+    if again != (comp, rc):
+        acc.mismatch("interval", f"{kind}/components-changed-after-use", case, list(again), [comp, rc])
     if kind != "date" and native:
         # the same subtraction with a native operand on either side
         na = dt_.datetime(*fa, tzinfo=a.tzinfo, fold=a.fold)
